@@ -48,6 +48,8 @@ def op_line(name, field=None, curve=None):
         elif kind == "ecdsa":
             c = curve or "Secp256k1"
             toks.append(c); vals.append(c)
+        elif kind == "u8opt":
+            toks.append("0"); vals.append(0)
         elif kind in ("u8", "u64", "i8"):
             toks.append(SAMPLE[kind]); vals.append(int(SAMPLE[kind]))
         else:
@@ -127,7 +129,13 @@ def mode_case(draw):
     for _ in range(n):
         k = draw(st.integers(0, 5))
         names.append(draw(st.sampled_from(MODAL)) if k == 0 else draw(st.sampled_from(STRAIGHT)))
-    return {"names": names}
+    dead = []
+    if draw(st.integers(0, 2)) == 0:
+        # mode-specific opcodes that sit in unreachable code still make the program mode-specific:
+        # the AVM validates every opcode of the program against the run mode before executing it
+        for _ in range(draw(st.integers(1, 3))):
+            dead.append(draw(st.sampled_from(MODAL)) if draw(st.booleans()) else draw(st.sampled_from(STRAIGHT)))
+    return {"names": names, "dead": dead}
 
 
 def check_mode(case):
@@ -136,8 +144,13 @@ def check_mode(case):
     lines = ["#pragma version 8"]
     for nm in case["names"]:
         lines.append(op_line(nm)[0])
+    dead = case.get("dead") or []
+    if dead:
+        lines += ["int 1", "return", "unused:"]
+        for nm in dead:
+            lines.append(op_line(nm)[0])
     src = "\n".join(lines) + "\n"
-    modes = [rops.OPS[nm].mode for nm in case["names"]]
+    modes = [rops.OPS[nm].mode for nm in list(case["names"]) + list(dead)]
     first = next((m for m in modes if m != "A"), "A")
     want_mode = {"A": ExecutionMode.ANY, "S": ExecutionMode.STATELESS, "P": ExecutionMode.STATEFUL}[first]
     try:
@@ -159,7 +172,7 @@ def check_mode(case):
     as_lsig = txn.logic_sig is not None
     if as_app != (first == "P") or as_lsig == as_app:
         raise Violation("analysed-as", f"application={as_app} logic_sig={as_lsig}, expected application={first == 'P'}\n{src}")
-    return {"nontrivial": first != "A", "key": case_hash(src), "features": [f"first={first}", "mixture" if ("S" in modes and "P" in modes) else "pure"]}
+    return {"nontrivial": first != "A", "key": case_hash(src), "features": [f"first={first}", "mixture" if ("S" in modes and "P" in modes) else "pure"] + (["modal_in_dead_code"] if any(rops.OPS[n].mode != "A" for n in dead) else [])}
 
 
 # ------------------------------------------------------------------ cost
